@@ -397,20 +397,25 @@ def mon_c02_reexec(t: Trace, crashes: int = 0) -> list[tuple[str, str]]:
     hits = []
     recorded: dict[tuple[int, int], str] = {}
     last_rearm: dict[tuple[int, int], int] = {}
+    rows_since: dict[tuple[int, int], list[int]] = {}      # RunTask rows that executed the task since its last re-arm
     for k, _, kind, payload in iterations(t):
         if kind == "rearm":
             recorded.pop(payload, None)
             last_rearm[payload] = k
+            rows_since[payload] = []
         else:
             s, tt, n, _seen = payload
+            m_ = re.match(r"[dxn](\d+)", t.ops[k - 1])
+            if m_:
+                rows_since.setdefault((s, tt), []).append(int(m_.group(1)))
             if (s, tt) in recorded and crashes == 0:
-                # F4 family: the RunTask that executed was already queued BEFORE the jump re-armed this task - a message
-                # of the previous loop iteration (no iteration tag) running the task of the new one a second time
+                # F4 family: one of the RunTasks that executed the task in this iteration (the earlier or the later one) was
+                # already queued BEFORE the jump re-armed the task - a message of the previous loop iteration (no iteration
+                # tag) and the new iteration's own RunTask both run the task body
                 stale = ""
-                m_ = re.match(r"[dxn](\d+)", t.ops[k - 1])
-                if m_ and (s, tt) in last_rearm:
+                if (s, tt) in last_rearm:
                     before = {int(q.split(":")[0]) for q in parse_line(t.lines[last_rearm[(s, tt)] - 1])["queue"]}
-                    if int(m_.group(1)) in before:
+                    if any(rid_ in before for rid_ in rows_since.get((s, tt), [])):
                         stale = ":stale-runtask-from-before-rearm"
                 hits.append((f"reexecuted-after:{recorded[(s, tt)]}{stale}",
                              f"task {s}.{tt} executed again (execution #{n}) after its result {recorded[(s, tt)]} was recorded, op {t.ops[k - 1]}"))
@@ -578,7 +583,17 @@ def mon_c05(t: Trace) -> list[tuple[str, str]]:
                          f"only wait re-polls were pending ({t.op_msg[ex]} exhausted its budget): workflow {pre['wf']} was silently stuck with stages {[x['status'] for x in pre['stages']]}"))
     if fin["wf"] == "SUCCEEDED" and not all(s in CONTINUABLE for s in sts):
         bad = {s for s in sts if s not in CONTINUABLE}
-        cause = "stopped-stage" if "STOPPED" in bad else "+".join(sorted(bad))
+        cause = "+".join(sorted(bad))
+        if "STOPPED" in bad:
+            # F5 (failPipeline=False / TaskResult.stopped()): by design the workflow is SUCCEEDED with the STOPPED stage and
+            # its never-started descendants; any OTHER unfinished stage (outside the stopped branch) is a different failure
+            n = len(t.spec.stages)
+            desc: set[int] = set()
+            for i in range(n):
+                if sts[i] == "STOPPED" or any(u in desc or sts[u] == "STOPPED" for u in t.spec.stages[i].reqs):
+                    desc.add(i)
+            outside = sorted({sts[i] for i in range(n) if sts[i] not in CONTINUABLE and i not in desc})
+            cause = "stopped-stage" if not outside else "stopped-stage+unfinished-outside-its-branch:" + "+".join(outside)
         hits.append((f"succeeded-with:{cause}", f"workflow SUCCEEDED with stages {sts}"))
     if "TERMINAL" in sts and fin["wf"] in COMPLETE and fin["wf"] not in ("TERMINAL", "CANCELED"):
         hits.append((f"terminal-stage-but:{fin['wf']}", f"a stage is TERMINAL but the workflow is {fin['wf']}"))
@@ -902,12 +917,37 @@ def produce(prop: str, rng: random.Random, wd: Path, j: int) -> dict:
             stages.append(StageSpec(reqs=[2], tasks=[["S"]]))
         spec = Spec(stages, wf_maxj=rng.choice([None, 2, 3]))
         fam = "stale-start"
+    stopped_fam = prop in ("C05", "C17", "C02") and not directed and not stale and rng.random() < (0.08 if prop == "C05" else 0.03)
+    if stopped_fam:
+        # stopped-branch family (exotic by construction): 2-3 independent root branches, one of which ends STOPPED
+        # (TaskResult.stopped(), or a failing task with failPipeline=False), the others succeed / suspend / poll / fail-continue
+        # and may have a downstream stage: exercises CompleteWorkflow's "a stage is STOPPED and no OTHER branch is incomplete"
+        # rule, whose answer must not depend on how late the other roots' StartStage is delivered
+        nb = rng.choice([2, 2, 3])
+        stages = []
+        which = rng.randrange(nb)
+        for b_ in range(nb):
+            if b_ == which:
+                if rng.random() < 0.5:
+                    stages.append(StageSpec(tasks=[["P"]] if rng.random() < 0.6 else [["S"], ["P"]]))
+                else:
+                    stages.append(StageSpec(tasks=[[rng.choice(["T", "X"])]], failp=False))
+            else:
+                stages.append(StageSpec(tasks=[list(rng.choice([["S"], ["S"], ["R", "S"], ["U", "S"], ["F"]]))]))
+        for b_ in range(nb):
+            if rng.random() < 0.4:
+                stages.append(StageSpec(reqs=[b_], tasks=[["S"]]))
+        spec = Spec(stages)
+        fam = "stopped-branch"
     r = Runner(spec, wd)
-    mode = rng.choice(["fifo", "rand", "rand", "dup", "any"])
+    mode = rng.choice(["fifo", "rand", "rand", "dup", "any", "starve"])
+    if stopped_fam:
+        mode = rng.choice(["starve", "starve", "rand"])
     if directed:
         mode = rng.choice(["rand", "dup"])
     if stale:
         mode = "dup"
+    victim = None      # mode "starve": one pending row is held back until nothing else is deliverable (a very late message)
     respecting = mode != "any"
     nested_p = 0.0 if mode == "fifo" else (0.6 if directed else 0.25)
     cancel_at = rng.randint(0, 25) if (prop == "C17" or rng.random() < 0.15) else None
@@ -920,7 +960,14 @@ def produce(prop: str, rng: random.Random, wd: Path, j: int) -> dict:
             r.apply(("c",))
             cancel_at = None
             continue
-        rid, rcode = (p[0][0], p[0][1]) if mode == "fifo" else (lambda x: (x[0], x[1]))(rng.choice(p))
+        if mode == "starve":
+            if victim is None and rng.random() < 0.2:
+                victim = rng.choice(p)[0]
+            if victim is not None and any(x[0] != victim for x in p):
+                p = [x for x in p if x[0] != victim]
+            elif victim is not None:
+                victim = None          # only the victim is left: it is delivered now
+        rid, rcode = (p[0][0], p[0][1]) if mode in ("fifo", "starve") else (lambda x: (x[0], x[1]))(rng.choice(p))
         others = [x for x in p if x[0] != rid and not (x[1].startswith("RT.") and x[1] == rcode)]
         if rcode.startswith("RT.") and others and rng.random() < nested_p:
             # a second worker handles other pending messages WHILE this task executes (RunTask's two phases)
@@ -1134,7 +1181,33 @@ def mon_c15(t: Trace) -> list[tuple[str, str]]:
     return hits
 
 
-MONITORS["C15"] = [mon_c15]
+def mon_c15_applied(t: Trace) -> list[tuple[str, str]]:
+    """every jump request handled while its source stage is RUNNING is applied or refused (the stage is re-armed, completed or
+    made TERMINAL by that very delivery) - never dropped: a dropped jump leaves the loop neither continued nor ended.  Holds on
+    every schedule (a JumpToStage whose processed mark is already durable is a duplicate and is rightly dropped)."""
+    hits = []
+    for k in range(len(t.ops)):
+        m = t.op_msg[k]
+        if not m or not m.startswith("JS.") or t.ops[k][0] not in "dx":
+            continue
+        pre = parse_line(t.lines[k])
+        src = int(m.split(".")[1])
+        rid_ = int(re.match(r"[dx](\d+)", t.ops[k]).group(1))
+        if rid_ in pre.get("processed", []) or t.outcomes[k] != "ok":
+            continue
+        if pre["wf"] in COMPLETE or pre["canceled"]:
+            continue
+        if pre["stages"][src]["status"] == "RUNNING" and t.audit_len[k + 1] == t.audit_len[k]:
+            post = parse_line(t.lines[k + 1])
+            if post["stages"] == pre["stages"]:
+                hits.append(("jump-request-dropped-although-source-running",
+                             f"JumpToStage {m} (op {t.ops[k]}) was handled while its source stage {src} was RUNNING with tasks "
+                             f"{pre['stages'][src]['tasks']} and changed nothing: the requested jump is neither applied nor refused"))
+                break
+    return hits
+
+
+MONITORS["C15"] = [mon_c15, mon_c15_applied]
 OUTCOME_MONITORS.add("mon_c15")
 
 
